@@ -9,8 +9,12 @@ Open Scope Z_scope.
 Definition lsite_accounted (s : lsite) : bool := l_class s =? 1.
 
 (* how the parser stores the rows of a glyph: does the LCDGlyph constructor take a one-shot object? *)
+(* the names as code points (no [string] literal in what is extracted) *)
+Definition t_LCDGlyph : text := [76; 67; 68; 71; 108; 121; 112; 104].
+Definition t_ensure_function_variant : text := [95; 101; 110; 115; 117; 114; 101; 95; 102; 117; 110; 99; 116; 105; 111; 110; 95; 118; 97; 114; 105; 97; 110; 116].
+
 Definition glyph_rows_lazy : bool :=
-  existsb (fun e => text_eqb (fst (fst e)) (txt "LCDGlyph"%string)) node_lazy_args.
+  existsb (fun e => text_eqb (fst (fst e)) t_LCDGlyph) node_lazy_args.
 
 Definition mk_gen : list Z -> seqv := mk_of glyph_rows_lazy.
 
@@ -18,7 +22,7 @@ Definition mk_gen : list Z -> seqv := mk_of glyph_rows_lazy.
 Definition gsite_safe (g : gsite) : bool := (g_scope g =? 0) || (g_release g =? 0).
 
 Definition variant_guards : list gsite :=
-  filter (fun g => text_eqb (g_fn g) (txt "_ensure_function_variant"%string)) guard_sites.
+  filter (fun g => text_eqb (g_fn g) t_ensure_function_variant) guard_sites.
 
 (* the configuration of the function-variant guard: the worst of what the function shows; no guard found = not understood = leaky *)
 Definition vcfg_gen : vcfg :=
